@@ -4,6 +4,7 @@ import FP.Model.Enc.MSC
 import FP.Model.Search
 import FP.Props.C13
 import FP.Proofs.C15
+import FP.Proofs.MGSRange
 /-!
 # C15 — MinGenSet and MinSetCover return true optima whenever one exists
 
@@ -17,12 +18,15 @@ What is proven, in the order of the statement:
   both weight types, partition constraints);
 * that multiplicity is `max_multiplicity` when `max_multiplicity ≤ total` (`mgs_effMult_eq`) and can be
   smaller otherwise — then solutions are lost (`mgs_cap_loses_solutions`);
-* removing complements / `0` / `total` is optimum preserving for multiplicity 1 (`preprocess_sound`) and
-  **not** for larger multiplicities (`complement_removal_unsound_mult`);
-* a search over a range returns the true optimum of that range (`mgs_returns_optimum`,
-  `mgs_range_contains_optimum`), the optimum is at most `n + 1` (`genset_exists`), and the range
-  `range(lb, max(lb+1, n))` of the code misses it for `[1, 2, 4]`, total `7`
-  (`mgs_range_stops_short_witness`) — the statement of C15 is FALSE for the code as it is;
+* the constructor's preprocessing (since fix 20bda28: complements only for multiplicity 1; `0`, `total` and
+  duplicates always) keeps the generating multisets for every multiplicity (`preprocess_sound`); dropping
+  complements for larger multiplicities would not (`complement_removal_unsound_mult`, the historical defect);
+* a search over a range returns the true optimum of that range (`mgs_returns_optimum`); the optimum is at
+  most `#distinct numbers + 1` (`genset_exists`); the range of the code (since fix 6c30e65
+  `range(lb, max(lb, upper) + 1)`) **always contains the optimum** when there are no partition constraints
+  (`mgs_range_contains_optimum`) — with partition constraints this is kept as a statement
+  (`mgs_range_contains_optimum_partition_Statement`); `[1, 2, 4]`, total `7` is now solved
+  (`mgs_range_regression_124`);
 * `mscLP`: satisfying assignments are the covers, the objective is the weight, an optimum is a
   minimum-weight cover (`msc_sound`, `msc_complete`, `msc_objective`, `msc_opt_transfer`).
 -/
@@ -64,11 +68,6 @@ def mgs_partition_sound_FullStatement : Prop :=
       ∀ con ∈ cons, RespectsPartition (mgsGen a k) con
 
 /-! ### (c) completeness of the encoding -/
-
-/-- a solution of the generating-set problem of an input, for the multiplicity the LP expresses -/
-def MgsSolution (inp : MGSInput) (g : List Rat) : Prop :=
-  IsGenSet g inp.total inp.numbers (mgsEffMult inp) ∧ (inp.weightInt = true → AllInt g) ∧
-    ∀ cons, inp.partition = some cons → ∀ con ∈ cons, RespectsPartition g con
 
 /-- side condition under which the product columns `pi ≤ total` do not cut anything off: multiplicity 1,
 or no number exceeds `total` -/
@@ -146,53 +145,37 @@ theorem complement_removal_sound (g : List Rat) (total x : Rat) (hs : g.sum = to
     (h : Generates g 1 x) : Generates g 1 (total - x) := by
   rw [← hs]; exact generates_complement g x h
 
-/-- multiplicity 1: a multiset is a generating multiset of the preprocessed list (complements, `0` and
-`total` removed, duplicates dropped) iff it is one of the original list -/
-theorem preprocess_sound (numbers : List Rat) (total : Rat) (rc : Bool) (g : List Rat) :
-    IsGenSet g total (mgsPreprocess numbers total rc) 1 ↔ IsGenSet g total numbers 1 :=
-  preprocess_isGenSet_iff numbers total rc g
+/-- **every multiplicity ≥ 1**: a multiset is a generating multiset of the preprocessed list (for
+multiplicity 1 complements removed; `0`, `total` and duplicates dropped always) iff it is one of the
+original list -/
+theorem preprocess_sound (numbers : List Rat) (total : Rat) (rc : Bool) (mult : Nat) (hm : 1 ≤ mult)
+    (g : List Rat) :
+    IsGenSet g total (mgsPreprocess numbers total rc mult) mult ↔ IsGenSet g total numbers mult :=
+  preprocess_isGenSet_iff numbers total rc mult hm g
 
-/-- for multiplicity `> 1` the analogous statement is false: `{2, 8}` (sum `10`) generates `4 = 2·2` with
-multiplicity 2 but not `10 − 4 = 6` — the complement would need a negative coefficient. So
-`remove_complement_values=True` with `max_multiplicity > 1` may return a multiset that does not generate
-a removed input number. -/
+/-- why the constructor must not drop complements for multiplicity `> 1` (it did before fix 20bda28):
+`{2, 8}` (sum `10`) generates `4 = 2·2` with multiplicity 2 but not `10 − 4 = 6` — the complement would
+need a negative coefficient. Pure arithmetic about multisets. -/
 theorem complement_removal_unsound_mult :
     ([2, 8] : List Rat).sum = 10 ∧ Generates [2, 8] 2 4 ∧ ¬ Generates [2, 8] 2 (10 - 4) := by
   decide +kernel
 
-/-- the same on the model of the constructor: `[4, 6]`, total `10` is preprocessed to `[4]`; `{2, 8}` is a
-generating multiset of the preprocessed list and not of the input -/
-theorem preprocess_unsound_mult :
-    mgsPreprocess [4, 6] 10 true = [4] ∧ IsGenSet [2, 8] 10 (mgsPreprocess [4, 6] 10 true) 2 ∧
-      ¬ IsGenSet [2, 8] 10 [4, 6] 2 := by
+/-- regression for fix 20bda28 on the model of the constructor: `[4, 6]`, total `10` loses `6` only for
+multiplicity 1 -/
+theorem preprocess_keeps_complements_mult :
+    mgsPreprocess [4, 6] 10 true 1 = [4] ∧ mgsPreprocess [4, 6] 10 true 2 = [4, 6] := by
   decide +kernel
 
 /-! ### (e) the search -/
 
 /-- numbers in `[0, total]` always have a generating multiset with one element more than there are
-numbers (sorted differences plus the remainder), for every multiplicity `≥ 1`: the optimum is at most
-`n + 1`. (A number outside `[0, total]` has none for multiplicity 1.) -/
+*distinct* numbers (sorted differences plus the remainder), for every multiplicity `≥ 1`, integral for
+integral data: the optimum is at most `len(set(numbers)) + 1`. -/
 theorem genset_exists (numbers : List Rat) (total : Rat) (mult : Nat) (hm : 1 ≤ mult) (h0 : 0 ≤ total)
     (hb : ∀ x ∈ numbers, 0 ≤ x ∧ x ≤ total) :
-    ∃ g : List Rat, g.length = numbers.length + 1 ∧ IsGenSet g total numbers mult := by
-  have hp := sortRat_perm numbers
-  have hs : (sortRat numbers).Pairwise (· ≤ ·) := by
-    have hpw : (sortRat numbers).Pairwise (fun a b => decide (a ≤ b) = true) :=
-      List.pairwise_mergeSort
-        (fun a b c h1 h2 => by
-          simp only [decide_eq_true_eq] at h1 h2 ⊢
-          exact Rat.le_trans h1 h2)
-        (fun a b => by
-          simp only [Bool.or_eq_true, decide_eq_true_eq]
-          exact Rat.le_total) numbers
-    exact hpw.imp (fun h => by simpa using h)
-  obtain ⟨h1, h2, h3⟩ := diffSet_isGenSet (sortRat numbers) total h0 hs
-    (fun x hx => hb x (hp.mem_iff.1 hx))
-  refine ⟨_, ?_, h1, h2, fun a ha => generates_mono _ 1 mult hm a (h3 a (hp.mem_iff.2 ha))⟩
-  simp [diffs_length, hp.length_eq]
-
-/-- a size is a solution size -/
-def SolvableAt (inp : MGSInput) (k : Nat) : Prop := ∃ g : List Rat, g.length = k ∧ MgsSolution inp g
+    ∃ g : List Rat, g.length = distinctCount numbers + 1 ∧ IsGenSet g total numbers mult ∧
+      (AllInt numbers → (∃ z : Int, total = z) → AllInt g) :=
+  diffSet_exists numbers total mult hm h0 hb
 
 /-- the solver script is faithful: `kOptimal` iff the LP of that size is feasible, `kInfeasible` iff not
 (what C13 leaves to the solver) -/
@@ -210,61 +193,94 @@ theorem mgs_returns_optimum (inp : MGSInput) (σ : Nat → Status) (hσ : Faithf
   refine ⟨(mgs_feasible_iff inp k hside huni).1 ((hσ k).1.1 h1), h2, h3, fun j hj1 hj2 hs => ?_⟩
   exact ((hσ j).2.1 (h4 j hj1 hj2)) ((mgs_feasible_iff inp j hside huni).2 hs)
 
-/-- **exact condition under which the range of the code contains the optimum**: with
-`hi = max (lb+1) n` (`n = len(initial_numbers)`), the smallest solution size `m ≥ lb` is returned iff
-`m = lb ∨ m < n`, i.e. `m < max (lb+1) n` -/
-theorem mgs_range_contains_optimum (inp : MGSInput) (σ : Nat → Status) (hσ : Faithful inp σ)
+/-- the least solution size `m ≥ lo` is returned iff it lies below the (exclusive) upper end -/
+theorem mgs_search_finds_least (inp : MGSInput) (σ : Nat → Status) (hσ : Faithful inp σ)
     (hside : MgsSide inp)
     (huni : ∀ cons, inp.partition = some cons → ∀ con ∈ cons, con.length = maxParts cons)
-    (lb n m : Nat) (hlb : lb ≤ m) (hm : SolvableAt inp m) (hmin : ∀ j, lb ≤ j → j < m → ¬ SolvableAt inp j) :
-    (stopSearch σ lb (max (lb+1) n)).solved = some m ↔ m < max (lb+1) n := by
+    (lo hi m : Nat) (hlo : lo ≤ m) (hm : SolvableAt inp m) (hmin : ∀ j, lo ≤ j → j < m → ¬ SolvableAt inp j) :
+    (stopSearch σ lo hi).solved = some m ↔ m < hi := by
   constructor
   · intro h
     exact (FP.Props.C13.search_sound σ _ _ m h).2.2.1
   · intro hlt
-    apply FP.Props.C13.search_complete σ _ _ m hlb hlt
+    apply FP.Props.C13.search_complete σ _ _ m hlo hlt
     · exact (hσ m).1.2 ((mgs_feasible_iff inp m hside huni).2 hm)
     · intro j hj1 hj2
       exact (hσ j).2.2 (fun hf => hmin j hj1 hj2 ((mgs_feasible_iff inp j hside huni).1 hf))
 
-/-- when the optimum is `≥ max (lb+1) n` the search ends unsolved -/
+/-- when no size of the range is a solution size the search ends unsolved -/
 theorem mgs_range_misses_optimum (inp : MGSInput) (σ : Nat → Status) (hσ : Faithful inp σ)
     (hside : MgsSide inp)
     (huni : ∀ cons, inp.partition = some cons → ∀ con ∈ cons, con.length = maxParts cons)
-    (lb n : Nat) (hmin : ∀ j, lb ≤ j → j < max (lb+1) n → ¬ SolvableAt inp j) :
-    (stopSearch σ lb (max (lb+1) n)).solved = none := by
-  cases hs : (stopSearch σ lb (max (lb+1) n)).solved with
+    (lo hi : Nat) (hmin : ∀ j, lo ≤ j → j < hi → ¬ SolvableAt inp j) :
+    (stopSearch σ lo hi).solved = none := by
+  cases hs : (stopSearch σ lo hi).solved with
   | none => rfl
   | some k =>
     obtain ⟨h1, h2, h3, _⟩ := mgs_returns_optimum inp σ hσ hside huni _ _ k hs
     exact absurd h1 (hmin k h2 h3)
 
-/-- **the defect.** numbers `[1, 2, 4]`, total `7`, defaults (`lowerbound = 1`): `{1, 2, 4}` is a solution
-of size `3 = len(numbers)`, no smaller one exists, and the loop `range(1, max(2, 3))` never tries `3`:
-with a perfect solver `solve()` ends unsolved. C15 does not hold for the code as it is. -/
-theorem mgs_range_stops_short_witness :
+/-- **the range of the code contains the optimum** (no partition constraints; data as the docstring asks:
+numbers within `[0, total]`, integral for `weight_type=int`): with a faithful solver
+`for k in range(lowerbound, max(lowerbound, len(set(numbers)) + 1) + 1)` returns the least solution size
+`≥ lowerbound` — `solve()` succeeds and the answer is minimum -/
+theorem mgs_range_contains_optimum (inp : MGSInput) (σ : Nat → Status) (hσ : Faithful inp σ)
+    (hp : inp.partition = none) (hd : MgsData inp) (lb : Nat) :
+    ∃ m, (stopSearch σ lb (mgsHi inp lb)).solved = some m ∧ SolvableAt inp m ∧ lb ≤ m ∧
+      ∀ j, lb ≤ j → j < m → ¬ SolvableAt inp j := by
+  have hside : MgsSide inp := Or.inr (fun x hx => (hd.bounded x hx).2)
+  have huni : ∀ cons, inp.partition = some cons → ∀ con ∈ cons, con.length = maxParts cons :=
+    fun cons hc => by rw [hp] at hc; cases hc
+  have htop : SolvableAt inp (max lb (distinctCount inp.numbers + 1)) :=
+    solvable_mono inp hp _ _ (Nat.le_max_right _ _) (solvable_upper inp hp hd)
+  obtain ⟨m, hm1, hm2, hm3, hm4⟩ := least_from (SolvableAt inp) lb
+    (max lb (distinctCount inp.numbers + 1) - lb) ⟨_, Nat.le_max_left _ _, by omega, htop⟩
+  refine ⟨m, ?_, hm3, hm1, hm4⟩
+  rw [mgs_search_finds_least inp σ hσ hside huni lb _ m hm1 hm3 hm4, mgsHi_none inp lb hp]
+  omega
+
+/-- the same with partition constraints (`upper = len(set(numbers)) + 1 + Σ (len(con) − 1)`). Argument, not
+formalised: lay every constraint out as consecutive intervals of `[0, total]` and the sorted numbers as
+prefixes; the common refinement has at most `upper` pieces, every part and every number is a union of
+pieces. Checked by the brute-force oracle of `harness/props/c15.py` only. -/
+def mgs_range_contains_optimum_partition_Statement : Prop :=
+  ∀ (inp : MGSInput) (σ : Nat → Status), Faithful inp σ → MgsData inp → inp.maxMult = 1 →
+    (∀ cons, inp.partition = some cons → ∀ con ∈ cons, con.sum = inp.total ∧ ∀ x ∈ con, 0 ≤ x) →
+    ∀ lb, ∃ m, (stopSearch σ lb (mgsHi inp lb)).solved = some m ∧ SolvableAt inp m ∧ lb ≤ m ∧
+      ∀ j, lb ≤ j → j < m → ¬ SolvableAt inp j
+
+/-- **regression for fix 6c30e65.** numbers `[1, 2, 4]`, total `7`, defaults: `{1, 2, 4}` is a solution of
+size `3`, no smaller one exists, the loop is now `range(1, 5)` and every faithful solver makes `solve()`
+return size `3` (the old loop `range(1, 3)` ended unsolved). -/
+theorem mgs_range_regression_124 :
     let inp : MGSInput := { numbers := [1, 2, 4], total := 7, weightInt := true }
-    SolvableAt inp 3 ∧ (∀ j, j < 3 → ¬ SolvableAt inp j) ∧
-      ∀ σ, Faithful inp σ → (stopSearch σ 1 (max (1+1) inp.numbers.length)).solved = none := by
+    mgsHi inp 1 = 5 ∧ SolvableAt inp 3 ∧ (∀ j, j < 3 → ¬ SolvableAt inp j) ∧
+      (∀ σ, Faithful inp σ → (stopSearch σ 1 (mgsHi inp 1)).solved = some 3) ∧
+      (∀ σ, Faithful inp σ → (stopSearch σ 1 3).solved = none) := by
   intro inp
   have heff : mgsEffMult inp = 1 := by decide +kernel
   have hnot : ∀ j, j < 3 → ¬ SolvableAt inp j := by
     rintro j hj ⟨g, hlen, hg, _⟩
     rw [heff] at hg
     exact no_small_genset_124 g (by omega) hg
-  refine ⟨⟨[1, 2, 4], rfl, ?_, ?_, ?_⟩, hnot, ?_⟩
-  · rw [heff]; decide +kernel
-  · intro _ x hx
-    simp only [List.mem_cons, List.not_mem_nil, or_false] at hx
-    rcases hx with rfl | rfl | rfl
-    · exact ⟨1, rfl⟩
-    · exact ⟨2, rfl⟩
-    · exact ⟨4, rfl⟩
-  · intro cons hc; cases hc
+  have h3 : SolvableAt inp 3 := by
+    refine ⟨[1, 2, 4], rfl, ?_, ?_, ?_⟩
+    · rw [heff]; decide +kernel
+    · intro _ x hx
+      simp only [List.mem_cons, List.not_mem_nil, or_false] at hx
+      rcases hx with rfl | rfl | rfl
+      · exact ⟨1, rfl⟩
+      · exact ⟨2, rfl⟩
+      · exact ⟨4, rfl⟩
+    · intro cons hc; cases hc
+  have huni : ∀ cons, inp.partition = some cons → ∀ con ∈ cons, con.length = maxParts cons :=
+    fun cons hc => by cases hc
+  refine ⟨by decide +kernel, h3, hnot, ?_, ?_⟩
   · intro σ hσ
-    apply mgs_range_misses_optimum inp σ hσ (Or.inl rfl) (fun cons hc => by cases hc)
-    intro j _ hj
-    exact hnot j hj
+    rw [mgs_search_finds_least inp σ hσ (Or.inl rfl) huni 1 _ 3 (by omega) h3 (fun j _ hj => hnot j hj)]
+    decide +kernel
+  · intro σ hσ
+    exact mgs_range_misses_optimum inp σ hσ (Or.inl rfl) huni 1 3 (fun j _ hj => hnot j hj)
 
 /-! ### (f) minimum set cover -/
 
@@ -291,6 +307,26 @@ theorem msc_opt_transfer (inp : MSCInput) (a : Asg) (h : Sat a (mscLP inp))
       ∀ ch, IsCover inp.univ inp.subsets ch →
         coverWeight (mscW inp) inp.subsets.length (mscChosen a) ≤ coverWeight (mscW inp) inp.subsets.length ch :=
   msc_opt_transfer_proof inp a h hopt
+
+/-- `subset_weights=None` (since fix 3364d5e): every subset weighs 1, so the objective counts the chosen
+subsets -/
+theorem msc_default_unit_weights (univ : List String) (subsets : List (List String)) (ch : Nat → Bool) :
+    coverWeight (mscW (⟨univ, subsets, mscWeights none subsets.length⟩ : MSCInput)) subsets.length ch
+      = (((List.range subsets.length).filter fun i => ch i).length : Nat) := by
+  unfold coverWeight
+  have hw : ∀ i ∈ List.range subsets.length,
+      (if ch i = true then mscW (⟨univ, subsets, mscWeights none subsets.length⟩ : MSCInput) i else 0)
+        = if ch i = true then (1 : Rat) else 0 := by
+    intro i hi
+    have hi' := List.mem_range.1 hi
+    simp [mscW, mscWeights, List.getD_eq_getElem?_getD, hi']
+  rw [FP.sum_map_congr _ _ _ hw]
+  generalize List.range subsets.length = l
+  induction l with
+  | nil => simp
+  | cons x xs ih =>
+    simp only [List.map_cons, List.sum_cons, List.filter_cons, ih]
+    cases ch x <;> simp <;> grind
 
 /-! ### non-vacuity -/
 
@@ -324,6 +360,7 @@ example : ∃ a, Sat a (mgsLP { numbers := [2, 4], total := 4, maxMult := 2 } 2)
 example : IsGenSet [1, 2, 4] 7 [1, 2, 4] 1 := by decide +kernel
 example : diffs 0 [1, 2, 4] ++ [8 - lastD 0 [1, 2, 4]] = [1, 1, 2, 4] := by decide +kernel
 example : mgsPreprocess [3, 4, 7, 0, 3] 7 true = [3] := by decide +kernel
+example : mgsPreprocess [3, 4, 7, 0, 3] 7 true 2 = [3, 4] := by decide +kernel
 example : IsCover ["a", "b", "c"] [["a"], ["b", "c"], ["a", "b", "c"]] (fun i => i == 0 || i == 1) := by
   intro el hel
   simp only [List.mem_cons, List.not_mem_nil, or_false] at hel
